@@ -17,7 +17,8 @@ def _fractional_matrix_power(C, power, **kwargs):
     _, s, V = svd.fit_transform(C)
 
     # cut off small singular values
-    is_above_zero = s > np.finfo(s.dtype).eps
+    # Relative cut-off: the result must not depend on the units of the data
+    is_above_zero = s > np.finfo(s.dtype).eps * C.shape[0] * s.max()
     V = V[:, is_above_zero]
     s = s[is_above_zero]
 
